@@ -18,5 +18,6 @@ def obligations(tier):
     obls += [kern_eq_obl(p) for p in range(4)]       # table/kernel consistency of the portable-only fixed-length kernels
     obls += [coefs_obl(0, 0), coefs_obl(0, 2), coefs_obl(1, 0), coefs_obl(1, 2)]   # both coefficient layouts (coef / coef4) are filled by the same real code
     obls += [drv(1, ns=1), drv(2, ratio='2.0', solver=KISSAT), kern_obl(0, hn=8), kern_obl(0, hn=8, engine='cr64.c')]   # shared length/delay logic
+    obls += [kern_poly_obl(k, e) for e in ('cr64.c', 'cr32.c') for k in (1, 2, 3)]      # interpolated poly-phase kernels of the portable engines: right table entry for every power of x
     obls += kern_imp_set(tier)      # every tap of the half-band tables is applied, to the right sample (portable and SSE kernels)
     return obls
